@@ -39,7 +39,7 @@ COMPONENTS = {
 ASSUMPTIONS = ["reference = the structure theorems re-implemented by split search (ref/growth.py), agreeing with each other under inverse",
                "Fibonacci bound with F = 1,1,2,3,5,8,... (counts of the sums of 1 and 21)"]
 EXPECTED_PROBES = ["memo_hit_other_basis", "one_shot_stream", "symmetric_image", "memo_flush", "cli", "av_method",
-                   "enumeration_crosscheck", "duplicates_or_permuted", "finite_basis", "polynomial_basis", "ins_enc_only_topmost", "interrupted_call"]
+                   "enumeration_crosscheck", "duplicates_or_permuted", "finite_basis", "polynomial_basis", "ins_enc_only_topmost", "interrupted_call", "class_object_address_reused"]
 
 ENTRY = ["is_finite", "is_polynomial", "is_non_polynomial", "is_insertion_encodable", "rightmost", "maximum",
          "av_is_finite", "av_is_polynomial", "av_is_insertion_encodable", "cli_poly", "cli_insenc"]
@@ -102,8 +102,10 @@ def gen_case(rng, tier):
                 # the call is interrupted after that many executed library lines; the memo
                 # tables keep whatever it had written
                 ops[-1]["interrupt"] = int(10 ** rng.uniform(0, 3.2))
-        elif r < 0.92:
+        elif r < 0.9:
             ops.append({"op": "memo_flush", "which": rng.choice(["poly", "insenc", "both"])})
+        elif r < 0.94:
+            ops.append({"op": "clear_class_cache"})
         else:
             ops.append({"op": "enumerate", "basis": rng.randrange(nb)})
     return {"universe": uni, "bases": bases, "ops": ops, "nmax": 6 if tier == "quick" else 7}
@@ -192,6 +194,46 @@ def execute(case):
     for idx, op in enumerate(case["ops"]):
         hist.op_index = idx
         kind = op["op"]
+        if kind == "clear_class_cache":
+            # Every class object is asked its verdicts, dropped (Av.clear_cache + gc), and the
+            # classes are created again: the new objects are likely to be allocated where the
+            # old ones were, in another order.  Verdicts must still be those of the basis.
+            import gc  # pylint: disable=import-outside-toplevel
+
+            out.fault("class_cache_cleared")
+            seen_ids = set()
+            bad = None
+            try:
+                for phase in (0, 1):
+                    order = list(range(len(case["bases"])))
+                    if phase:
+                        order = order[1:] + order[:1]
+                    keep = []
+                    for bi in order:
+                        base = [uni[i] for i in case["bases"][bi] if i < len(uni)]
+                        if not base:
+                            continue
+                        av = pm.Av([pm.Perm(p) for p in base])
+                        keep.append(av)
+                        if phase and id(av) in seen_ids:
+                            out.probe("class_object_address_reused")
+                        seen_ids.add(id(av))
+                        got = (av.is_finite(), av.is_polynomial(), av.is_insertion_encodable())
+                        exp = (RG.is_finite(base), RG.is_polynomial(base), RG.is_insertion_encodable(base))
+                        if got != exp and bad is None:
+                            bad = (phase, base, got, exp)
+                    del keep, av
+                    pm.Av.clear_cache()
+                    gc.collect()
+            except Exception as exc:  # pylint: disable=broad-except
+                hist.violate("exception", {"entry": "av_after_clear", "type": type(exc).__name__}, f"{type(exc).__name__}: {exc}")
+                break
+            hist.log.add("clear_class_cache", idx, bad is None)
+            if bad is not None:
+                hist.violate("wrong_verdict", {"entry": "av_after_clear"},
+                             f"{'after' if bad[0] else 'before'} Av.clear_cache(): Av({bad[1]}) answers (finite, polynomial, insertion-encodable) = {bad[2]}, theorems say {bad[3]}")
+                break
+            continue
         if kind == "memo_flush":
             if op["which"] in ("poly", "both") and isinstance(getattr(PolyPerms, "_CACHE", None), dict):
                 PolyPerms._CACHE.clear()  # pylint: disable=protected-access
